@@ -965,6 +965,12 @@ func strBytes(s string) []Value {
 }
 
 func (ex *Exec) symSubstr(fr *frame, s *Term, lo, hi Value) Value {
+	// s[k:] of a concatenation that starts with a constant of length >= k
+	if hi == nil && s.Op == "str.++" && s.Args[0].IsConst() {
+		if k, ok := lo.(int64); ok && k >= 0 && k <= int64(len(s.Args[0].S)) {
+			return simplify(joinParts(s.Args[0].S[k:], s.Args[1:]))
+		}
+	}
 	var l, h *Term
 	if lo == nil {
 		l = TInt(0)
